@@ -21,6 +21,8 @@ pub mod sql_agg;
 pub mod sql_fn;
 pub mod sql_rewrite;
 pub mod sql_dml;
+pub mod rowserde;
+pub mod record;
 
 pub fn run(engine: &str, ctx: &Ctx) -> Report {
     match engine {
@@ -42,6 +44,8 @@ pub fn run(engine: &str, ctx: &Ctx) -> Report {
         "sql_rewrite" => sql_rewrite::run(ctx),
         "sql_dml" => sql_dml::run(ctx),
         "sql_dml_atomic" => sql_dml::run_atomic(ctx),
+        "rowserde" => rowserde::run(ctx),
+        "record" => record::run(ctx),
         _ => {
             eprintln!("unknown engine {engine}");
             std::process::exit(2);
